@@ -274,8 +274,43 @@ pub fn run(prop: &str, tier: Tier) -> (RunMeta, Acc) {
     }
 }
 
+/// Fold the sanitizer tier's report (written by sanitizers.sh) into the run: every report is a violation,
+/// what the sanitized runs observed goes into the evidence.
+fn apply_sanitizer_report(prop: &str, meta: &mut RunMeta, acc: &mut Acc) {
+    let Ok(path) = std::env::var("TYV_SANITIZER_REPORT") else { return };
+    let Ok(txt) = std::fs::read_to_string(&path) else { return };
+    let Ok(v) = serde_json::from_str::<serde_json::Value>(&txt) else { return };
+    for t in v["tools"].as_array().cloned().unwrap_or_default() {
+        let tool = t["tool"].as_str().unwrap_or("?").to_string();
+        let build = t["build"].as_str().unwrap_or("?");
+        let runs = t["runs"].as_u64().unwrap_or(0);
+        let reports = t["reports"].as_u64().unwrap_or(0);
+        meta.pools.push(serde_json::json!({"sanitizer": tool, "build": build, "runs": runs, "reports": reports, "observed": t["observed"]}));
+        if build != "ok" {
+            acc.inconclusive(&format!("sanitizer-{}-{}", tool, build));
+            continue;
+        }
+        acc.count(&format!("sanitizer_runs[{}]", tool), runs);
+        acc.evaluations += runs;
+        if reports > 0 {
+            acc.violations.push(Violation {
+                property: prop.to_string(),
+                input: format!("sanitized workload of {} ({})", prop, tool),
+                cfg: None,
+                origin: format!("sanitizers.sh {}", prop),
+                oracle: format!("{}-report", tool),
+                detail: format!("{} report(s): {}", reports, t["excerpt"].as_str().unwrap_or("")),
+                extra: serde_json::Value::Null,
+            });
+        } else {
+            acc.held += runs;
+        }
+    }
+}
+
 pub fn check(prop: &str, tier: Tier) -> i32 {
-    let (meta, acc) = run(prop, tier);
+    let (mut meta, mut acc) = run(prop, tier);
+    apply_sanitizer_report(prop, &mut meta, &mut acc);
     let floor = match (prop, tier) {
         ("C17", _) => 500,
         ("C14" | "C15" | "C16", _) => 100,
